@@ -116,6 +116,14 @@ def run(ck, rng, tier):
         if yunit != 1.0:
             Y = Y * yunit
             ck.count("responses in units of %g" % yunit)
+        # scaling options of the learner: PLS with several responses is run with y autoscaling as well (with one response the
+        # y scaling does not change a PLS prediction)
+        oxs, oys = 1, 0
+        if algo == 0 and ny >= 2 and yunit == 1.0:      # (responses in units of 1e-6 are zeroed by the y autoscaling guard: left to C10/C18)
+            oys = 1 if c < len(FORCED) else rng.choice((0, 1, 1, 2))
+            oxs = rng.choice((1, 1, 0, 2))
+        opts = "opts %d %d\n" % (oxs, oys)
+        ck.count("learner scaling options x=%d y=%d" % (oxs, oys))
         nth = rng.choice((1, 2, 3, 4, 8))
         if c < len(FORCED) and scheme == "kfold":
             # user labels with a gap (3 is unused) and worker batches in which the unused label is not the last one (3, 5 or 8 workers)
@@ -149,7 +157,7 @@ def run(ck, rng, tier):
         if algo == 4 and n - biggest < m + 2:
             ck.count("skipped: training part smaller than the number of MLR coefficients + 1")
             continue
-        rc, o2, err = vf.run_driver(exe, cmd + "\n" + cmd2 + "\n", timeout=300)
+        rc, o2, err = vf.run_driver(exe, opts + cmd + "\n" + cmd2 + "\n", timeout=300)
         if rc != 0 or len(o2) != 2:
             ck.fail("CV/" + scheme, "crash_" + ALGOS[algo], "driver aborted (rc %s): %s" % (rc, err.strip().splitlines()[-1] if err.strip() else ""), {"cmd": cmd})
             continue
@@ -182,14 +190,17 @@ def run(ck, rng, tier):
                     continue
                 tr = [i for i in range(n) if i not in f]
                 rl.append("refit %d %d %s %s %s" % (algo, nlv, vf.fmt_mat(X[tr].tolist(), m), vf.fmt_mat(Y[tr].tolist(), ny), vf.fmt_mat(X[f].tolist(), m)))
-            rc, o3, err = vf.run_driver(exe, "\n".join(rl) + "\n", timeout=300)
+            rc, o3, err = vf.run_driver(exe, opts + "\n".join(rl) + "\n", timeout=300)
             k = 0
             for f in folds:
                 if not f:
                     continue
                 pr = np.array(o3[k]["pred"]) if k < len(o3) else None
                 k += 1
-                if pr is None or pr.shape != P[f].shape or np.abs(pr - P[f]).max() > 1e-9 * max(np.abs(P).max(), 1e-300):
+                # (PLS with several responses iterates to a relative change of 1e-8 per latent variable: two fits of the same
+                # objects given in another ORDER stop at slightly different points; the refit agrees to that accuracy, not to rounding)
+                rtol = 1e-3 if (algo == 0 and ny >= 2) else 1e-9
+                if pr is None or pr.shape != P[f].shape or np.abs(pr - P[f]).max() > rtol * max(np.abs(P).max(), 1e-300):
                     ck.fail(site, "not_refit_" + ALGOS[algo], "the value predicted for objects %s is not the prediction of a model refitted on the other objects" % f[:4], {"cmd": cmd, "fold": f})
                     break
         else:
@@ -209,7 +220,7 @@ def run(ck, rng, tier):
                     tr = [int(x) for gg in range(grp) if gg != g for x in gid[gg] if int(x) != -1]
                     rl.append("refit %d %d %s %s %s" % (algo, nlv, vf.fmt_mat(X[tr].tolist(), m), vf.fmt_mat(Y[tr].tolist(), ny), vf.fmt_mat(X[f].tolist(), m)))
                     fl.append(f)
-                rc, o3, err = vf.run_driver(exe, "\n".join(rl) + "\n", timeout=300)
+                rc, o3, err = vf.run_driver(exe, opts + "\n".join(rl) + "\n", timeout=300)
                 if rc != 0 or len(o3) != len(fl):
                     okb = False
                     break
@@ -223,7 +234,7 @@ def run(ck, rng, tier):
                     ck.fail(site, "object_never_predicted", "some object is in no test group", {"cmd": cmd})
                 else:
                     want = acc / cnt[:, None]
-                    if np.abs(want - P).max() > 1e-9 * max(np.abs(P).max(), 1e-300):
+                    if np.abs(want - P).max() > (1e-3 if (algo == 0 and ny >= 2) else 1e-9) * max(np.abs(P).max(), 1e-300):
                         ck.fail(site, "not_refit_" + ALGOS[algo], "bootstrap predictions are not the average of the out-of-fold refits (max diff %.3g)" % np.abs(want - P).max(), {"cmd": cmd})
     failing, logs, cerr = vf.run_cases_v("c05", IMPORTS, DEFS, checks.items, shard=8, timeout=1200)
     if cerr:
